@@ -1087,8 +1087,7 @@ int32_t jls_core_fsr(struct jls_core_s * self, uint16_t signal_id, int64_t start
     int64_t chunk_sample_id;
     int64_t chunk_sample_count;
     uint8_t * u8;
-    uint8_t shift_bits = 0;
-    uint8_t shift_carry = 0;
+    size_t dst_bit = 0;  // output bit position, for entry sizes less than 8 bits
 
     while (data_length > 0) {
         ROE(jls_core_rd_fsr_data0(self, signal_id, start_sample_id));
@@ -1102,48 +1101,49 @@ int32_t jls_core_fsr(struct jls_core_s * self, uint16_t signal_id, int64_t start
             return JLS_ERROR_UNSPECIFIED;
         }
 
+        int64_t idx_start = 0;
         int64_t sz_samples = chunk_sample_count;
         if (start_sample_id > chunk_sample_id) {
             // should only happen on first chunk
-            int64_t idx_start = start_sample_id - chunk_sample_id;
+            idx_start = start_sample_id - chunk_sample_id;
             sz_samples = chunk_sample_count - idx_start;
-            u8 += ((idx_start * entry_size_bits) / 8);
-            switch (entry_size_bits) {
-                case 1: shift_bits = (uint8_t) (start_sample_id & 0x07); break;
-                case 4: shift_bits = (uint8_t) ((start_sample_id & 0x01) * 4); break;
-                default: break;
-            }
-            if (shift_bits) {
-                shift_carry = (*u8++) >> shift_bits;
-                uint8_t rem_bits = (uint8_t) ((start_sample_id + data_length - 1) & 0x07) + 1;
-                if ((1 == entry_size_bits) && ((8 - shift_bits + rem_bits) > 8)) {
-                    // write out carry on buffer wrap when carry + end bits exceed a byte
-                    if (data_length > sz_samples) {
-                        data_length += 8;
-                    }
-                } else if ((4 == entry_size_bits) && (sz_samples == 1)) {
-                    data_length -= sz_samples;
-                    start_sample_id += sz_samples;
-                    continue;
-                }
-            }
         }
-
         if (sz_samples > data_length) {
             sz_samples = data_length;
         }
-
-        size_t sz_bytes = (size_t) (sz_samples * entry_size_bits + 7) / 8;
-        if (shift_bits) {
-            for (size_t i = 0; i < sz_bytes; ++i) {
-                data_u8[i] = (u8[i] << (8 - shift_bits)) | shift_carry;
-                shift_carry = u8[i] >> shift_bits;
-            }
-            sz_bytes = (sz_samples * entry_size_bits) / 8;
-        } else {
-            memcpy(data_u8, u8, sz_bytes);
+        if (sz_samples <= 0) {
+            JLS_LOGE("fsr chunk does not contain sample %" PRIi64, start_sample_id);
+            return JLS_ERROR_NOT_FOUND;
         }
-        data_u8 += sz_bytes;
+
+        if (entry_size_bits >= 8) {
+            size_t sz_bytes = (size_t) (sz_samples * entry_size_bits) / 8;
+            memcpy(data_u8, u8 + ((idx_start * entry_size_bits) / 8), sz_bytes);
+            data_u8 += sz_bytes;
+        } else {
+            // chunks start byte aligned: the source bit position is relative to the chunk
+            size_t src_bit = (size_t) (idx_start * entry_size_bits);
+            size_t bits = (size_t) (sz_samples * entry_size_bits);
+            while (bits) {
+                // copy up to one destination byte per iteration
+                size_t dst_off = dst_bit & 7;
+                size_t src_off = src_bit & 7;
+                size_t n = 8 - dst_off;
+                if (n > bits) {
+                    n = bits;
+                }
+                uint16_t v = u8[src_bit >> 3];
+                if ((src_off + n) > 8) {
+                    v |= ((uint16_t) u8[(src_bit >> 3) + 1]) << 8;
+                }
+                uint8_t mask = (uint8_t) (((1U << n) - 1) << dst_off);
+                uint8_t b = (uint8_t) (((v >> src_off) << dst_off) & mask);
+                data_u8[dst_bit >> 3] = (uint8_t) ((dst_off ? (data_u8[dst_bit >> 3] & ~mask) : 0) | b);
+                dst_bit += n;
+                src_bit += n;
+                bits -= n;
+            }
+        }
         data_length -= sz_samples;
         start_sample_id += sz_samples;
     }
